@@ -42,6 +42,11 @@ def main():
     else:
         xb._PYTYPE_TO_WRAPPER_TYPE[float] = ((xb.RealBasedSymbolicFloat, 1.0),)
     if a.mode == "real":
+        # real-mode float arguments are finite reals only (no nan/inf forks: 4^n paths otherwise)
+        os.environ["CROSSHAIR_ONLY_FINITE_FLOATS"] = "1"
+        import warnings
+
+        warnings.filterwarnings("ignore", category=FutureWarning)
         # CrossHair caps real-based results at UNKNOWN because reals are not floats;
         # obligations run in this mode claim exact arithmetic only (stated in the evidence)
         import crosshair.statespace as xs
